@@ -1,5 +1,5 @@
-(** C12, function layer: each modelled slicing function panics exactly on its
-    finding class (so: never, outside the class). *)
+(** C12, function layer: no modelled slicing function panics, on any input
+    (the code after the fix wave, fixes/c12-2 … c12-7). *)
 From Coq Require Import String Ascii List Bool Arith NArith ZArith Lia.
 From Raven Require Import Base.GoStr Model.Slicers.
 Import ListNotations.
@@ -76,65 +76,58 @@ Proof.
   unfold contains_byte. apply existsb_exists. exists c. split; [exact Hi | apply Ascii.eqb_refl].
 Qed.
 
-Lemma addr_struct_none_iff (a : str) : addr_struct a = None <-> angle_bad a = true.
+Lemma index_byte_skipn (s : str) (c : ascii) (i : nat) :
+  index_byte s c = Some i -> exists r, skipn i s = c :: r.
 Proof.
-  unfold addr_struct, angle_bad.
-  destruct (index_byte a "<") as [st|] eqn:E1.
-  2:{ split; [intros H; exfalso; revert H | discriminate].
-      destruct (contains_byte a "<" && contains_byte a ">"); apply addr_tail_some. }
-  destruct (index_byte a ">") as [en|] eqn:E2.
-  2:{ split; [intros H; exfalso; revert H | discriminate].
-      destruct (contains_byte a "<" && contains_byte a ">"); apply addr_tail_some. }
-  rewrite (index_byte_contains _ _ _ E1), (index_byte_contains _ _ _ E2). simpl.
-  pose proof (index_byte_lt _ _ _ E1) as L1. pose proof (index_byte_lt _ _ _ E2) as L2.
+  revert i; induction s as [|d s IH]; simpl; intros i H; [discriminate|].
+  destruct (Ascii.eqb_spec d c) as [->|N].
+  - injection H as <-. simpl. eauto.
+  - destruct (index_byte s c) as [k|]; simpl in H; [|discriminate].
+    injection H as <-. simpl. now apply IH.
+Qed.
+
+Lemma slice_from_skipn (s : str) (i : nat) :
+  i <= length s -> slice_from s (Z.of_nat i) = Some (skipn i s).
+Proof.
+  intros H. unfold slice_from, slice.
+  destruct (Z.leb_spec 0 (Z.of_nat i)); [|lia].
+  destruct (Z.leb_spec (Z.of_nat i) (Z.of_nat (length s))); [|lia].
+  destruct (Z.leb_spec (Z.of_nat (length s)) (Z.of_nat (length s))); [|lia]. simpl.
+  rewrite Nat2Z.id. f_equal. apply firstn_all2. rewrite skipn_length. lia.
+Qed.
+
+Theorem addr_struct_total (a : str) : addr_struct a <> None.
+Proof.
+  unfold addr_struct.
+  destruct (index_byte a "<") as [st|] eqn:E1; [|apply addr_tail_some].
+  pose proof (index_byte_lt _ _ _ E1) as L1.
+  rewrite slice_from_skipn by lia.
+  destruct (index_byte_skipn _ _ _ E1) as [r Hr]. rewrite Hr.
+  destruct (index_byte ("<" :: r) ">") as [en0|] eqn:E2; [|apply addr_tail_some].
+  pose proof (index_byte_lt _ _ _ E2) as L2.
+  assert (1 <= en0).
+  { destruct en0; [|lia]. apply index_byte_nth in E2. simpl in E2. discriminate. }
+  assert (Len : length ("<" :: r) = length a - st) by (rewrite <- Hr; apply skipn_length).
   destruct (slice_some a 0 (Z.of_nat st)) as [n0 Hn0]; unfold zlen; try lia.
   unfold slice_to. rewrite Hn0.
-  destruct (slice a (Z.of_nat st + 1) (Z.of_nat en)) as [em|] eqn:Sl.
-  - split; intros H.
-    + exfalso. revert H. apply addr_tail_some.
-    + exfalso. apply Nat.ltb_lt in H.
-      assert (N : slice a (Z.of_nat st + 1) (Z.of_nat en) = None).
-      { apply slice_none_iff. lia. }
-      congruence.
-  - split; intros _; [|reflexivity].
-    apply slice_none_iff in Sl. unfold zlen in Sl. apply Nat.ltb_lt.
-    assert (st <> en).
-    { intros ->. apply index_byte_nth in E1. apply index_byte_nth in E2.
-      rewrite E1 in E2. discriminate. }
-    lia.
+  destruct (slice_some a (Z.of_nat st + 1) (Z.of_nat en0 + Z.of_nat st)) as [em Hem]; unfold zlen; try lia.
+  rewrite Hem. apply addr_tail_some.
 Qed.
 
-Lemma addr_structs_none_iff (l : list str) :
-  addr_structs l = None <-> existsb (fun e => angle_bad (trim_space e)) l = true.
+Lemma addr_structs_total (l : list str) : addr_structs l <> None.
 Proof.
-  induction l as [|e l IH]; simpl; [split; discriminate|].
-  destruct (trim_space e) as [|c a] eqn:T.
-  - rewrite IH. unfold angle_bad at 2. simpl. reflexivity.
-  - destruct (addr_struct (c :: a)) as [s|] eqn:A.
-    + assert (B : angle_bad (c :: a) = false).
-      { destruct (angle_bad (c :: a)) eqn:B; [|reflexivity].
-        apply addr_struct_none_iff in B. congruence. }
-      rewrite B. simpl. rewrite <- IH.
-      destruct (addr_structs l); split; congruence.
-    + apply addr_struct_none_iff in A. rewrite A. simpl. split; reflexivity.
+  induction l as [|e l IH]; simpl; [discriminate|].
+  destruct (trim_space e) as [|c a] eqn:T; [exact IH|].
+  destruct (addr_struct (c :: a)) as [s|] eqn:A; [|now apply addr_struct_total in A].
+  destruct (addr_structs l); [discriminate | congruence].
 Qed.
 
-Theorem parse_address_list_none_iff (a : str) :
-  parse_address_list a = None <-> classify_address_list a = Some AddressAngle.
+Theorem parse_address_list_total (a : str) : parse_address_list a <> None.
 Proof.
-  unfold parse_address_list, classify_address_list.
-  destruct a as [|c a].
-  - simpl. split; discriminate.
-  - destruct (addr_structs (split_byte (c :: a) ",")) as [l|] eqn:E.
-    + assert (N : existsb (fun e => angle_bad (trim_space e)) (split_byte (c :: a) ",") = false).
-      { destruct (existsb _ _) eqn:X; [|reflexivity]. apply addr_structs_none_iff in X. congruence. }
-      rewrite N. split; [destruct l; discriminate | discriminate].
-    + apply addr_structs_none_iff in E. rewrite E. split; reflexivity.
+  unfold parse_address_list. destruct a as [|c a]; [discriminate|].
+  destruct (addr_structs (split_byte (c :: a) ",")) as [l|] eqn:E; [destruct l; discriminate|].
+  now apply addr_structs_total in E.
 Qed.
-
-Theorem parse_address_list_total (a : str) :
-  classify_address_list a = None -> parse_address_list a <> None.
-Proof. intros C H. apply parse_address_list_none_iff in H. congruence. Qed.
 
 (** ---- extractHeader ---- *)
 Lemma eh_loop_total (lines : list str) (hu : str) (inh : bool) (acc : str) :
@@ -156,79 +149,81 @@ Qed.
 Theorem extract_header_total (raw name : str) : extract_header raw name <> None.
 Proof. apply eh_loop_total. Qed.
 
-Lemma extract_header_some (raw : str) (name : string) :
-  extract_header raw (S_ name) = Some (header_or_empty raw name).
+Lemma extract_header_some (raw name : str) : exists v, extract_header raw name = Some v.
 Proof.
-  unfold header_or_empty. destruct (extract_header raw (S_ name)) eqn:E; [reflexivity|].
-  now apply extract_header_total in E.
+  destruct (extract_header raw name) eqn:E; [eauto|]. now apply extract_header_total in E.
 Qed.
 
 (** ---- BuildEnvelope ---- *)
-Theorem build_envelope_total (raw : str) :
-  classify_envelope raw = None -> build_envelope raw <> None.
+Theorem build_envelope_total (raw : str) : build_envelope raw <> None.
 Proof.
-  unfold classify_envelope, build_envelope. intros C.
-  rewrite !extract_header_some.
-  destruct (existsb _ _) eqn:X in C; [discriminate|]. clear C.
-  cbn [existsb] in X. repeat (apply orb_false_iff in X as [?H X]).
+  unfold build_envelope.
   repeat match goal with
-  | H : match classify_address_list ?v with Some _ => true | None => false end = false |- _ =>
+  | |- context [extract_header raw ?n] =>
+      let v := fresh "v" in let E := fresh "E" in
+      destruct (extract_header_some raw n) as [v E]; rewrite E; clear E
+  end.
+  repeat match goal with
+  | |- context [parse_address_list ?x] =>
       let E := fresh "E" in
-      destruct (classify_address_list v) eqn:E in H; [discriminate|];
-      apply parse_address_list_total in E; clear H;
-      destruct (parse_address_list v); [|congruence]
+      destruct (parse_address_list x) eqn:E; [|now apply parse_address_list_total in E]; clear E
   end.
   discriminate.
 Qed.
 
-Theorem build_envelope_none_classified (raw : str) :
-  build_envelope raw = None -> classify_envelope raw = Some AddressAngle.
+(** ---- the partial-range arithmetic (slicePartial) ---- *)
+Theorem partial_apply_total (p : str) (st ln : Z) : partial_apply p st ln <> None.
 Proof.
-  intros H. destruct (classify_envelope raw) as [f|] eqn:C.
-  - unfold classify_envelope in C. destruct (existsb _ _) in C; congruence.
-  - now apply build_envelope_total in C.
+  unfold partial_apply.
+  destruct (Z.ltb_spec st 0); simpl; [discriminate|].
+  destruct (Z.ltb_spec ln 0); simpl; [discriminate|].
+  destruct (Z.geb_spec st (zlen p)); simpl; [discriminate|].
+  destruct (Z.gtb_spec ln (zlen p - st)); rewrite slice_none_iff; lia.
 Qed.
 
-(** ---- the partial-range arithmetic ---- *)
-Lemma partial_apply_none_iff (p : str) (st ln : Z) :
-  partial_apply p st ln = None <-> partial_bad p st ln = true.
+(** what it returns: the clamped window, for in-range arguments *)
+Theorem partial_apply_window (p : str) (st ln : Z) :
+  (0 <= st)%Z -> (0 <= ln)%Z ->
+  partial_apply p st ln = Some (firstn (Z.to_nat ln) (skipn (Z.to_nat st) p)).
 Proof.
-  unfold partial_apply, partial_bad.
-  destruct (Z.ltb_spec st (zlen p)) as [L|L]; simpl; [|split; discriminate].
-  set (e := wrap64 (st + ln)).
-  destruct (Z.gtb_spec e (zlen p)) as [G|G]; rewrite slice_none_iff, orb_true_iff, !Z.ltb_lt; lia.
+  intros H1 H2. unfold partial_apply.
+  destruct (Z.ltb_spec st 0); [lia|]. destruct (Z.ltb_spec ln 0); [lia|]. simpl.
+  destruct (Z.geb_spec st (zlen p)) as [G|G]; simpl.
+  - rewrite skipn_all2 by (unfold zlen in G; lia). now rewrite firstn_nil.
+  - unfold slice, zlen in *.
+    destruct (Z.gtb_spec ln (Z.of_nat (length p) - st)) as [K|K].
+    + destruct (Z.leb_spec 0 st); [|lia]. destruct (Z.leb_spec st (st + (Z.of_nat (length p) - st))); [|lia].
+      destruct (Z.leb_spec (st + (Z.of_nat (length p) - st)) (Z.of_nat (length p))); [|lia]. simpl.
+      f_equal. rewrite !firstn_all2; try reflexivity; rewrite skipn_length; lia.
+    + destruct (Z.leb_spec 0 st); [|lia]. destruct (Z.leb_spec st (st + ln)); [|lia].
+      destruct (Z.leb_spec (st + ln) (Z.of_nat (length p))); [|lia]. simpl.
+      do 2 f_equal. lia.
 Qed.
 
-Theorem numeric_partial_none_iff (rest payload : str) :
-  numeric_partial rest payload = None <-> classify_numeric_partial rest payload = Some PartialNegative.
+Theorem numeric_partial_total (rest payload : str) : numeric_partial rest payload <> None.
 Proof.
-  unfold numeric_partial, classify_numeric_partial.
-  destruct rest as [|c r]; [split; discriminate|].
-  destruct (Ascii.eqb_spec c "<") as [->|N]; [|split; discriminate].
-  destruct (index_byte ("<" :: r) ">") as [cl|] eqn:I; [|split; discriminate].
+  unfold numeric_partial.
+  destruct rest as [|c r]; [discriminate|].
+  destruct (Ascii.eqb_spec c "<") as [->|N]; [|discriminate].
+  destruct (index_byte ("<" :: r) ">") as [cl|] eqn:I; [|discriminate].
   pose proof (index_byte_lt _ _ _ I) as L.
   assert (1 <= cl).
   { destruct cl; [|lia]. apply index_byte_nth in I. simpl in I. discriminate. }
   destruct (slice_some ("<" :: r) 1 (Z.of_nat cl)) as [spec Hs]; unfold zlen; try lia.
-  rewrite Hs. destruct (sscan_d_dot_d spec) as [[a|] [b|]]; try (split; discriminate).
-  rewrite partial_apply_none_iff. destruct (partial_bad payload a b); split; congruence.
+  rewrite Hs. destruct (sscan_d_dot_d spec) as [[a|] [b|]]; try discriminate.
+  apply partial_apply_total.
 Qed.
 
-Theorem text_partial_none_iff (items body : str) :
-  text_partial items body = None <-> classify_text_partial items body = Some TextPartialNegative.
+Theorem text_partial_total (items body : str) : text_partial items body <> None.
 Proof.
-  unfold text_partial, classify_text_partial.
-  destruct (index_byte items "<") as [si|] eqn:I1.
-  2:{ destruct (contains_byte items "<" && contains_byte items ">"); split; discriminate. }
-  destruct (index_byte items ">") as [ei|] eqn:I2.
-  2:{ destruct (contains_byte items "<" && contains_byte items ">"); split; discriminate. }
-  rewrite (index_byte_contains _ _ _ I1), (index_byte_contains _ _ _ I2). simpl.
-  destruct (Nat.ltb_spec si ei) as [L|L]; [|split; discriminate].
+  unfold text_partial.
+  destruct (contains_byte items "<" && contains_byte items ">"); [|discriminate].
+  destruct (index_byte items "<") as [si|] eqn:I1; [|discriminate].
+  destruct (index_byte items ">") as [ei|] eqn:I2; [|discriminate].
+  destruct (Nat.ltb_spec si ei) as [L|L]; [|discriminate].
   pose proof (index_byte_lt _ _ _ I2) as L2.
   destruct (slice_some items (Z.of_nat si + 1) (Z.of_nat ei)) as [spec Hs]; unfold zlen; try lia.
-  rewrite Hs. destruct (sscan_d_dot_d spec) as [oa ob].
-  rewrite partial_apply_none_iff.
-  match goal with |- context [partial_bad ?p ?a ?b] => destruct (partial_bad p a b) end; split; congruence.
+  rewrite Hs. destruct (sscan_d_dot_d spec) as [oa ob]. apply partial_apply_total.
 Qed.
 
 (** ---- HEADER.FIELDS ---- *)
@@ -251,48 +246,39 @@ Proof.
   destruct (slice_to_lt_some _ _ _ I) as [r ->]. destruct (fields r); discriminate.
 Qed.
 
-Theorem header_fields_none_iff (items : str) :
-  header_fields items = None <-> classify_header_fields items = Some HeaderFieldsShort.
+Theorem header_fields_total (items : str) : header_fields items <> None.
 Proof.
-  unfold header_fields, classify_header_fields, contains.
-  set (up := to_upper items).
-  destruct (index up hf_peek) as [st|] eqn:P.
-  - simpl. unfold slice_from.
-    destruct (slice items (Z.of_nat st + 25) (Z.of_nat (length items))) as [fs|] eqn:S.
-    + assert (~ (Z.of_nat st + 25 > zlen items)%Z).
-      { intros G. assert (N : slice items (Z.of_nat st + 25) (Z.of_nat (length items)) = None)
-          by (apply slice_none_iff; unfold zlen in *; lia). congruence. }
-      destruct (Z.gtb_spec (Z.of_nat st + 25) (zlen items)); [lia|].
-      split; [intros H'; exfalso; revert H'; apply hf_tail_some | discriminate].
-    + apply slice_none_iff in S. unfold zlen in *.
-      destruct (Z.gtb_spec (Z.of_nat st + 25) (Z.of_nat (length items))); [split; reflexivity | lia].
-  - destruct (index up hf_body) as [st|] eqn:B; simpl; [|split; discriminate].
-    unfold slice_from.
-    destruct (slice items (Z.of_nat st + 20) (Z.of_nat (length items))) as [fs|] eqn:S.
-    + assert (~ (Z.of_nat st + 20 > zlen items)%Z).
-      { intros G. assert (N : slice items (Z.of_nat st + 20) (Z.of_nat (length items)) = None)
-          by (apply slice_none_iff; unfold zlen in *; lia). congruence. }
-      destruct (Z.gtb_spec (Z.of_nat st + 20) (zlen items)); [lia|].
-      split; [intros H'; exfalso; revert H'; apply hf_tail_some | discriminate].
-    + apply slice_none_iff in S. unfold zlen in *.
-      destruct (Z.gtb_spec (Z.of_nat st + 20) (Z.of_nat (length items))); [split; reflexivity | lia].
+  unfold header_fields.
+  destruct (contains (to_upper items) hf_peek || contains (to_upper items) hf_body); [|discriminate].
+  match goal with |- context [match ?X with Some _ => _ | None => Some (Some hf_defaults) end] => destruct X as [st|] end;
+    [|discriminate].
+  set (pl := if contains (to_upper items) hf_peek then 25%Z else 20%Z).
+  assert (0 <= pl)%Z by (unfold pl; destruct (contains _ _); lia).
+  destruct (Z.leb_spec (Z.of_nat st + pl) (zlen items)) as [G|G].
+  - unfold slice_from. destruct (slice_some items (Z.of_nat st + pl) (Z.of_nat (length items))) as [fs ->];
+      unfold zlen in *; try lia. apply hf_tail_some.
+  - apply hf_tail_some.
 Qed.
 
 (** ---- BuildBodyStructure single-part body ---- *)
-Theorem bs_single_body_none_iff (raw : str) :
-  bs_single_body raw = None <-> classify_bs_single raw = Some BodystructureLfTail.
+Theorem bs_single_body_total (raw : str) : bs_single_body raw <> None.
 Proof.
-  unfold bs_single_body, classify_bs_single, slice_from.
+  unfold bs_single_body, slice_from.
   destruct (index raw crlfcrlf) as [i|] eqn:I.
   - apply index_le in I. simpl in I.
-    destruct (slice_some raw (Z.of_nat i + 4) (Z.of_nat (length raw))) as [r ->]; unfold zlen; try lia.
-    split; discriminate.
-  - destruct (index raw lflf) as [i|] eqn:J; [|split; discriminate].
-    rewrite slice_none_iff. unfold zlen.
-    destruct (Z.gtb_spec (Z.of_nat i + 4) (Z.of_nat (length raw))); split; try reflexivity; try discriminate; lia.
+    destruct (slice_some raw (Z.of_nat i + 4) (Z.of_nat (length raw))) as [r ->]; unfold zlen; try lia. discriminate.
+  - destruct (index raw lflf) as [i|] eqn:J; [|discriminate].
+    apply index_le in J. simpl in J.
+    destruct (slice_some raw (Z.of_nat i + 2) (Z.of_nat (length raw))) as [r ->]; unfold zlen; try lia. discriminate.
 Qed.
 
-(** generic corollary shape: outside the class, no panic *)
-Lemma total_of_iff {A} (o : option A) (c : option finding) (f : finding) :
-  (o = None <-> c = Some f) -> c = None -> o <> None.
-Proof. intros [H _] C E. apply H in E. congruence. Qed.
+(** ---- regression facts about the OLD code, stated on Go's slicing primitive
+    only (they do not mention the current model) ---- *)
+Example old_address_angle_slice : slice (S_ ">a<") 3 0 = None.           (* addr[start+1:end] for ">a<" *)
+Proof. reflexivity. Qed.
+Example old_partial_negative_slice : slice (S_ "body") (-1) 4 = None.     (* payload[-1:4] *)
+Proof. reflexivity. Qed.
+Example old_header_fields_slice : slice_from (S_ "BODY[HEADER.FIELDS]") 20 = None.
+Proof. reflexivity. Qed.
+Example old_bodystructure_slice : slice_from (S_ "A: b" ++ crlf ++ S_ "C: d" ++ [LF; LF]) 14 = None.
+Proof. reflexivity. Qed.
